@@ -89,8 +89,20 @@ class PolMonitor:
         name = point.name
         o = "pol_" + name
         x = gen.np_data(z)
-        if x.size > 1 << 20 or not np.all(np.isfinite(x)):
+        if x.size > 1 << 20:
             ctx.count("skipped")
+            return
+        if not np.all(np.isfinite(x)):
+            # flagged (NaN) / saturated (inf) samples: the formulas cannot be judged, but "already in the requested basis" is the
+            # identity for every sample value - a flag in one polarisation must not spread to the other
+            ctx.count("skipped")
+            if point.name in ("to_linear", "to_circular") and isinstance(out, pb.Signal) and z.pol_type == point.name[3:]:
+                ctx.count("oracle[identity_nonfinite]")
+                y = gen.np_data(out)
+                if y.shape != x.shape or not np.array_equal(y, x, equal_nan=True):
+                    ctx.violation("pol_" + point.name, f"{point.name} on a {z.pol_type} signal altered the samples (must be the identity): "
+                                  f"{int(np.sum(~np.isfinite(x)))} non-finite input samples, {int(np.sum(~np.isfinite(y)))} in the output",
+                                  None, {"op": point.name, "what": "identity_nonfinite"})
             return
         feats = {"op": name, "dtype": str(z.dtype), "trailing": z.ndim > 3, "dask": isinstance(z.data, da.Array)}
         ctx.count(f"oracle[{o}]")
@@ -194,6 +206,10 @@ def make_dp(rng, n, nchan, trailing, dtype, pol, use_dask, magnitude):
     elif magnitude == "unit":
         x = np.exp(2j * np.pi * rng.random(shape))
     x = x.astype(dtype)
+    if gen._side_rng(rng).random() < 0.08:
+        # a flagged / saturated sample in one polarisation only
+        srng = gen._side_rng(rng)
+        x[int(srng.integers(n)), int(srng.integers(nchan)), int(srng.integers(2))] = [np.nan, complex(np.inf, 0), complex(0, np.nan), -np.inf][int(srng.integers(4))]
     # the basis name as the caller may hold it: a literal, a string built at run time, a NumPy str scalar, or after pickling
     how = int(rng.integers(5))
     pol_arg = [pol, "".join(list(pol)), np.str_(pol), pol.upper().lower(), pol][how]
@@ -307,10 +323,10 @@ def wl_pol(ctx, idx, rng):
                     full = gen.np_data(s0)
                     g1, g2 = gen.np_data(c1), gen.np_data(c2)
                 want = full[:, :, k]
-                if g1.shape != want.shape or not np.array_equal(g1, want) or not np.array_equal(g2, want):
+                if g1.shape != want.shape or not np.array_equal(g1, want, equal_nan=True) or not np.array_equal(g2, want, equal_nan=True):
                     ctx.violation(o, f"component access {key!r} ({phase}) does not return component {k} of the signal "
-                                     f"(by key equal: {np.array_equal(g1, want) if g1.shape == want.shape else 'shape'}, "
-                                     f"by attribute equal: {np.array_equal(g2, want) if g2.shape == want.shape else 'shape'})",
+                                     f"(by key equal: {np.array_equal(g1, want, equal_nan=True) if g1.shape == want.shape else 'shape'}, "
+                                     f"by attribute equal: {np.array_equal(g2, want, equal_nan=True) if g2.shape == want.shape else 'shape'})",
                                   None, {"what": "component", "phase": phase})
                 if type(c1) is not pb.IntensitySignal or type(c2) is not pb.IntensitySignal:
                     ctx.violation(o, "Stokes component is not an IntensitySignal", None, {"what": "component_class"})
@@ -322,6 +338,19 @@ def wl_pol(ctx, idx, rng):
             if phase == "fresh":
                 if isinstance(s0.data, da.Array):
                     break
+                if e8 is None and isinstance(c1, pb.Signal):
+                    # a component handed out is the caller's to calibrate in place: the Stokes signal it came from keeps its values
+                    with probes.quiet():
+                        keep = gen.np_data(s0).copy()
+                        try:
+                            np.multiply(c1, 0.5, out=c1)
+                        except Exception:
+                            pass
+                        changed = not np.array_equal(gen.np_data(s0), keep, equal_nan=True)
+                    ctx.count("oracle[component_independent]")
+                    if changed:
+                        ctx.violation(o, f"scaling the component s[{key!r}] in place changed the Stokes signal it was taken from", None,
+                                      {"what": "component_aliases_parent"})
                 ctx.call(o, lambda: np.multiply(s0, 3.0, out=s0), where="np.multiply(out=)")
     # history: relabelling a conversion *result* through its public setters must leave the signal it came from as it was
     with probes.quiet():
